@@ -176,7 +176,7 @@ def run_prog_check(prop, props_files, tier, oracles, features=gen_prog.ALL, n_qu
         ctx.broken.append({"kind": "correspondence", "layer": "prog",
                            "what": "the Coq model of the runtime/primitives (Engine/Exec.v, Prim/*, Lang/*) and the crates disagree on %d of %d programs; the theorems of %s are about a model that no longer describes the code" % (len(mism), len(cases), ", ".join(props_files)),
                            "examples": ex})
-    ctx.cov["rule"] = (rule or "") + (" Programs: corpus of directed cases first, then generated multi-threaded programs (spawn/join/yield/park/atomics/rand/reset/panic/semaphores fair+unfair/Mutex/RwLock), "
+    ctx.cov["rule"] = (rule or "") + (" Programs: corpus of directed cases first, then generated multi-threaded programs in several streams (see input_distribution): uniform random over the check's feature set, scenarios (permanently blocked tasks with detached / aborted futures and parks), lifecycle (nested spawn/join, scopes, thread-locals), per-primitive focus streams (park, condvar, barrier, mutex, rwlock, sem, hand-held Acquire futures, atomics, channels), "
                        "each run on the real runtime under a scripted scheduler and on the extracted model; decisions (offered, current, yielding, choice), draws, per-op results, vector clocks, termination and "
                        "recorded schedule compared. every 6th program is unconstrained (invalid handles, zero permits, ...). distinct_nontrivial = distinct programs with at least one decision offering more than one task.")
     ctx.sample({"case": cases[ncorpus] if len(cases) > ncorpus else cases[0], "impl_trace": (io[ncorpus] if len(cases) > ncorpus else io[0])[:400]})
